@@ -23,13 +23,25 @@ def main(argv):
     rng = random.Random(seed)
     nvalid = 60 if tier == 'quick' else 1500
     cases, labels = [], []
-    for _ in range(nvalid):
+    used = {}
+    want_mc = nvalid // 3          # a third of the bases have a multi-client port (half of the fault kinds concern it)
+    nbase = tries = 0
+    while nbase < nvalid and tries < 40 * nvalid:
+        tries += 1
         base = GB.gen_case(rng)
+        if nbase >= nvalid - want_mc and not base['cfg']['ports'].get('mc'):
+            continue
+        nbase += 1
         cases.append({'file': base['file'], 'cfg': base['cfg']})
         labels.append('valid')
         fl = GB.faults(rng, base)
         if tier == 'quick':
-            fl = rng.sample(fl, min(len(fl), 6))
+            # six faults per base, the kinds used least so far first: every kind of fault gets its share of the run
+            rng.shuffle(fl)
+            fl.sort(key=lambda f: used.get(f[0], 0))
+            fl = fl[:10 if base['cfg']['ports'].get('mc') else 6]
+            for f in fl:
+                used[f[0]] = used.get(f[0], 0) + 1
         for name, c in fl:
             cases.append(c)
             labels.append('fault:' + name)
